@@ -467,6 +467,8 @@ class MakeTuple(AsExtOp, _PartialOp):
 
     def _set_in_types(self, types: tys.TypeRow) -> None:
         self._types = types
+        # the cached `ext_op` was computed from the previous types
+        self.__dict__.pop("ext_op", None)
 
     def __repr__(self) -> str:
         return "MakeTuple" + (f"({self._types})" if self._types is not None else "")
@@ -520,6 +522,8 @@ class UnpackTuple(AsExtOp, _PartialOp):
         assert isinstance(t, tys.Sum), f"Expected unary Sum, got {t}"
         (row,) = t.variant_rows
         self._types = row
+        # the cached `ext_op` was computed from the previous types
+        self.__dict__.pop("ext_op", None)
 
     def __repr__(self) -> str:
         return "UnpackTuple" + (f"({self._types})" if self._types is not None else "")
@@ -1353,6 +1357,8 @@ class Noop(AsExtOp, _PartialOp):
     def _set_in_types(self, types: tys.TypeRow) -> None:
         (t,) = types
         self._type = t
+        # the cached `ext_op` was computed from the previous type
+        self.__dict__.pop("ext_op", None)
 
     def __repr__(self) -> str:
         return "Noop" + (f"({self._type})" if self._type is not None else "")
